@@ -8,6 +8,6 @@ INVARIANT InvJoined
 INVARIANT InvFaithful
 INVARIANT InvDistinguishable
 INVARIANT InvNeverTheCallersMatrix
-INVARIANT InvMatrixIffAsked
+INVARIANT InvMatrixWhenAsked
 INVARIANT InvGuards
 CHECK_DEADLOCK FALSE
